@@ -126,9 +126,12 @@ def _phase1(matrix, basis, basis_set, m, n, eps, max_iter):
             for j in range(n_cols):
                 matrix[-1][j] -= matrix[i][j]
 
+    # The auxiliary objective starts at minus the total infeasibility; its round-off grows with that total
+    tolerance = eps * max(1.0, -matrix[-1][-1])
+
     status, iters, matrix, basis, basis_set = _phase2(matrix, basis, basis_set, m, eps, max_iter)
 
-    if matrix[-1][-1] < -eps:
+    if matrix[-1][-1] < -tolerance:
         # Artificials still positive: infeasible only if phase 1 was not cut short
         status = Status.MAX_ITER if status == Status.MAX_ITER else Status.INFEASIBLE
         return status, iters, matrix, basis, basis_set
